@@ -9,6 +9,7 @@ import ArcaModel.Model.DispatchAtpClient
 import ArcaModel.Model.DispatchAtpServer
 import ArcaModel.Model.DispatchDescribe
 import ArcaModel.Model.DispatchLink
+import ArcaModel.Model.DispatchStruct
 /-
   Line-protocol driver: one JSON case per input line, one JSON result per output line.
   Runs the model's executable definitions; used by the correspondence checks.
@@ -18,7 +19,8 @@ open Lean Arca
 /-- every model's line-protocol handler: `op name → case → result` -/
 def handlers : List (String → Json → Option (Except String Json)) :=
   [Arca.Dispatch.schemaHandler, Arca.Dispatch.funcHandler, Arca.Dispatch.codegenHandler, Arca.Dispatch.stepHandler, Arca.Dispatch.raceHandler, Arca.Dispatch.unitsHandler,
-   Arca.Dispatch.atpClientHandler, Arca.Dispatch.atpServerHandler, Arca.Dispatch.describeHandler, Arca.Dispatch.linkHandler]
+   Arca.Dispatch.atpClientHandler, Arca.Dispatch.atpServerHandler, Arca.Dispatch.describeHandler, Arca.Dispatch.linkHandler,
+   Arca.Dispatch.structHandler]
 
 partial def loop (stdin stdout : IO.FS.Stream) : IO Unit := do
   let line ← stdin.getLine
